@@ -4,6 +4,9 @@ package props
 import (
 	"fmt"
 
+	"github.com/hashicorp/hcl-lang/schema"
+	"verif/internal/gen"
+
 	"verif/internal/explore"
 	"verif/internal/report"
 	"verif/internal/run"
@@ -24,8 +27,18 @@ var allKinds = run.AllKinds
 // C01: every query is total.
 func C01(tier string) int {
 	c := report.NewCollector("C01")
-	groups := explore.Groups(explore.CaseOpts{Tier: tier, Prefixes: true, Edits: true, Seqs: true})
+	groups := explore.Groups(explore.CaseOpts{Tier: tier, Prefixes: true, Edits: true, Seqs: true, JSON: true})
 	groups = append(groups, func() []explore.Case { return jsonCases(tier) })
+	// a path context without a schema (a server that has not loaded one yet): every entry point, a few files
+	nos := gen.Entry{ID: "S:noschema", Mk: func() *schema.BodySchema { return nil }, Family: "struct", Hooks: -1}
+	groups = append(groups, func() []explore.Case {
+		var out []explore.Case
+		for _, t := range []string{"", "attr = decl.foo\n", "blk \"a\" {\n  attr = fn(1, \"${x.y}\")\n  nb {\n  }\n}\n", "attr = {\n  foo = [1, x.y]\n", "blk {\n  dynamic \"nb\" {\n    for_each = []\n    content {\n    }\n  }\n  count = 1\n}\n"} {
+			out = append(out, explore.Case{Entry: &nos, File: "main.tf", Text: t, Family: "noschema", PosTo: -1})
+		}
+		out = append(out, explore.Case{Entry: &nos, File: "main.tf.json", Text: "{\"attr\": \"${x.y}\", \"blk\": {\"a\": {\"attr\": [1]}}}\n", Family: "noschema", PosTo: -1})
+		return out
+	})
 	explore.HangHook = func(item string) {
 		c.Add(&report.Violation{Clause: "nontermination", Site: "watchdog", Detail: "a call made no progress for 120s: " + item, Check: "sweep"})
 	}
